@@ -4,7 +4,9 @@ EXTENDS Spinner
 
 Fn(k, d, v) == [k |-> k, d |-> d, v |-> v]
 Mk(f, T, ex, sel, st, re) ==
-    [k |-> f.k, d |-> f.d, v |-> f.v, T |-> T, extra |-> ex, sel |-> sel, stopAt |-> st, reenter |-> re]
+    [k |-> f.k, d |-> f.d, v |-> f.v, T |-> T, extra |-> ex, sel |-> sel, stopAt |-> st, reenter |-> re,
+     busyAt |-> NoStop, busyDt |-> 0]
+Busy(s, b, dt) == [s EXCEPT !.busyAt = b, !.busyDt = dt]
 
 UpTo2(S) == {e \in SUBSET S : Cardinality(e) <= 2}
 
@@ -46,6 +48,19 @@ ScenB1T == {Mk(f, 2, ex, sel, st, FALSE) : f \in FnsB1, ex \in {{}, {5}}, sel \i
 ScenB2T == {Mk(f, T, {}, 0, st, re) : f \in FnsB2, T \in 1..3, st \in {NoStop, 0, 1, 2}, re \in BOOLEAN}
            \cup {Mk(f, 2, {5}, 1, NoStop, FALSE) : f \in FnsB2}
 
+\* ---- C: busy reactor - a slow callback at b lasting dt makes everything due in (b, b+dt] fire in one
+\*      reactor iteration, in time order, also after the call that ended the run
+FnsC == {Fn("ret", 0, "v1"), Fn("never", 0, "-")} \cup {Fn("dfire", d, "v1") : d \in 0..4} \cup {Fn("dfail", d, "e1") : d \in 0..4}
+ScenC == {Busy(Mk(f, T, ex, 0, st, FALSE), b, dt) : f \in FnsC, T \in 1..3, ex \in {{}, {2}}, st \in {NoStop} \cup 0..4,
+                                                    b \in 0..2, dt \in 1..3}
+FnsCT == {Fn("ret", 0, "v1"), Fn("raise", 0, "e1"), Fn("never", 0, "-"), Fn("dfire", 2, "None")}
+         \cup {Fn("dfire", d, "v1") : d \in 0..5} \cup {Fn("dfail", d, "e1") : d \in 0..5}
+ScenCT == {Busy(Mk(f, T, ex, sel, st, FALSE), b, dt) : f \in FnsCT, T \in 1..4, ex \in {{}, {2}, {3, 5}}, sel \in 0..1,
+                                                       st \in {NoStop} \cup 0..5, b \in 0..3, dt \in 1..4}
+
+ScenAC == ScenA \cup ScenC
+ScenACT == ScenAT \cup ScenCT
+
 \* ---- R: scenarios for the real-reactor tier: all event times pairwise distinct, >= 1 unit apart ---
 Wide(s) == LET ts == <<FnTime(s), s.T, s.stopAt>> IN
            /\ \A i, j \in 1..3 : i # j /\ ts[i] # NoStop => ts[i] # ts[j]
@@ -55,7 +70,13 @@ ScenR == {s \in {Mk(f, T, ex, sel, st, FALSE) :
                     f \in {Fn("ret", 0, "None"), Fn("raise", 0, "e1"), Fn("dfire", 1, "v1"), Fn("dfail", 1, "e1"),
                            Fn("dfire", 3, "v1"), Fn("never", 0, "-")},
                     T \in {2}, ex \in {{}, {5}}, sel \in 0..1, st \in {NoStop, 1}} : Wide(s) /\ (s.sel = 1 => s.extra = {5})}
+\* busy real reactor (time.sleep in a callback): late failure / late success after the timeout
+ScenRB == {Busy(Mk(Fn("dfail", 3, "e1"), 2, {}, 0, NoStop, FALSE), 1, 3), Busy(Mk(Fn("dfire", 3, "v1"), 2, {}, 0, NoStop, FALSE), 1, 3),
+           Busy(Mk(Fn("dfire", 2, "v1"), 3, {5}, 0, NoStop, FALSE), 1, 3)}
 ScenR2 == {Mk(Fn("ret", 0, "v2"), 2, {}, 0, NoStop, FALSE), Mk(Fn("never", 0, "-"), 1, {}, 0, NoStop, FALSE)}
 
+\* smallest shapes for the asCoded (LateIgnored=FALSE) counterexample
+ScenRC == {Busy(Mk(Fn("dfire", 3, "v1"), 4, {}, 0, 2, FALSE), 1, 3), Busy(Mk(Fn("never", 0, "-"), 3, {}, 0, 2, FALSE), 1, 3)}
+ScenRall == ScenR \cup ScenRB
 JustNo == {NoScen}
 =============================================================================
